@@ -5,7 +5,7 @@ Cases are what replay files contain; evaluating one is a pure function of the fi
 """
 import json
 
-from .execute import run, first_divergence, all_divergences, step_reads, step_dsts
+from .execute import run, first_divergence, all_divergences, step_reads, step_dsts, ballast
 from .syntax import analyse
 
 FORMAT = "dsim-ragsim-1"
@@ -22,8 +22,9 @@ def side(schedule, width="int64"):
 
 def evaluate(case, want_all=False):
     """Run both executions; return (divergence|None, exec_a, exec_b)."""
-    ea = run(case["program"], case["a"]["schedule"], case["a"].get("width", "int64"))
-    eb = run(case["program"], case["b"]["schedule"], case["b"].get("width", "int64"))
+    with ballast(case.get("ballast", 0)):
+        ea = run(case["program"], case["a"]["schedule"], case["a"].get("width", "int64"))
+        eb = run(case["program"], case["b"]["schedule"], case["b"].get("width", "int64"))
     neutralise_text(case, ea, eb)
     d = first_divergence(ea, eb)
     return d, ea, eb
@@ -100,6 +101,8 @@ def pretty(case):
         s = case[name]["schedule"]
         acts = "; ".join(f"@{g} {render_act(a)}" for g, a in s.get("acts", []))
         lines.append(f"  {name}: width={case[name].get('width', 'int64')} eager={bool(s.get('eager'))} [{acts}]")
+    if case.get("ballast"):
+        lines.append(f"  environment: {case['ballast']} other live arrays with live unread selections (ballast)")
     return "\n".join(lines)
 
 
